@@ -258,4 +258,18 @@ CHECKS["C12"] = {
           "with NaN and inf values against a dataset holding only the selected events (labelled bounded).",
   "technique": "contract-based deductive verification: AST-generated VCs over the rank/select array model discharged by z3; structural "
                "data-flow obligations; bounded native replay for the estimators"}
+CHECKS["C13"] = {
+  "text": "Proof, on a dataset whose features and metadata keys are present/absent and valued symbolically, that check_feat_index reports a "
+          "violation exactly when the index feature does not enumerate 1..N; check_feature_size one violation per innate feature whose "
+          "length differs from the event count; has_fluorescence is true exactly when a fluorescence entry or any of fl1/fl2/fl3_max "
+          "exists; check_fl_num_channels / check_fl_num_lasers report a violation exactly when the stated count differs from the number "
+          "of named channels with stored data / lasers with wavelength and non-zero power; check_metadata_bad_greater_zero one violation "
+          "per set-up value that is present and not positive.",
+  "note": "'Accepts dclab's own output' and 'copies get the same violations' concern writer, CLI tools and all checks together on real "
+          "files: decided by the bounded stand-in on every run (files with complete metadata with and without fluorescence written by "
+          "RTDCWriter, compressed and repacked; eleven kinds of inconsistency put into finished files must each be reported), labelled "
+          "bounded. Table-driven checks (missing mandatory metadata, ROI vs. image size, unknown features, external links, choices, "
+          "HDF5 types) carry no contract.",
+  "technique": "contract-based deductive verification: AST-generated VCs over a symbolic dataset / metadata model discharged by z3; "
+               "bounded native replay for whole-file behaviour"}
 NOT_APPLICABLE = {}
